@@ -27,6 +27,9 @@ pub enum Op {
     },
     Send { from: String, to: String, amount: u128 },
     Allowance { owner: String, amount: u128 },
+    /// the next engine transaction attaches one coin of a foreign denomination as well: listed before (mode 1) or
+    /// after (mode 2) the collateral coin
+    ForeignCoin { mode: u8 },
 }
 
 impl Op {
@@ -75,6 +78,7 @@ impl Op {
             Op::Advance { .. } => "advance",
             Op::Send { .. } => "send",
             Op::Allowance { .. } => "allowance",
+            Op::ForeignCoin { .. } => "foreign_coin",
         }
     }
     pub fn sender(&self) -> Option<&str> {
@@ -86,6 +90,7 @@ impl Op {
             | Op::Feed { sender, .. } => Some(sender.as_str()),
             Op::Send { from, .. } => Some(from.as_str()),
             Op::Allowance { owner, .. } => Some(owner.as_str()),
+            Op::ForeignCoin { .. } => None,
             _ => None,
         }
     }
@@ -175,6 +180,10 @@ pub fn apply(w: &mut World, op: &Op, armed: Option<u32>) -> TxOut {
             }
         }
         Op::Send { from, to, amount } => w.send_collateral(from, to, *amount),
+        Op::ForeignCoin { mode } => {
+            w.foreign_next.set(*mode);
+            TxOut { ok: true, err: None, panicked: false, events: vec![], transfers: vec![], fault_armed: None, fault_fired: false, msg_tree: vec![], path: None }
+        }
         Op::Allowance { owner, amount } => {
             if w.cw20.is_some() {
                 w.set_allowance(owner, *amount)
